@@ -4,6 +4,7 @@ from hypothesis import strategies as st
 
 from ..core import Clause, Enum, Violation, guard
 from .. import oracles as O
+from ..harness import npcosts
 
 PROPERTY = "C01"
 LEVEL = "exploration"
@@ -68,7 +69,8 @@ def pair_cases(draw, max_m=8):
     else:
         a = draw(st.sampled_from(MARKERS))
         b = draw(st.sampled_from(MARKERS))
-    return {"p": p + [a], "q": q + [b]}
+    # objective values as plain floats or as numpy float64 (what calc_signed_costs stores)
+    return {"p": p + [a], "q": q + [b], "np": draw(st.booleans())}
 
 
 def _nt_pair(p, q):
@@ -91,16 +93,16 @@ def check_pareto_pair(case):
         # process and must answer like a fresh one (no state may survive a comparison)
         if "pareto" not in _shared:
             _shared["pareto"] = ParetoDominance()
-        sv = _shared["pareto"].compare(list(p), list(q))
+        sv = _shared["pareto"].compare(npcosts(p, case.get("np")), npcosts(q, case.get("np")))
         cmp_ = ParetoDominance()
-        v = cmp_.compare(list(p), list(q))
+        v = cmp_.compare(npcosts(p, case.get("np")), npcosts(q, case.get("np")))
     if sv != v:
         raise Violation("pareto", "stateful-comparator", "a comparator that has been used before answers %r for (%r, %r), a "
                         "fresh one %r" % (sv, p, q, v))
     with guard("pareto"):
-        w = cmp_.compare(list(q), list(p))
-        rp = cmp_.compare(list(p), list(p))
-        rq = cmp_.compare(list(q), list(q))
+        w = cmp_.compare(npcosts(q, case.get("np")), npcosts(p, case.get("np")))
+        rp = cmp_.compare(npcosts(p, case.get("np")), npcosts(p, case.get("np")))
+        rq = cmp_.compare(npcosts(q, case.get("np")), npcosts(q, case.get("np")))
     exp = O.verdict(p, q)
     if v not in (0, 1, 2) or type(v) is bool:
         raise Violation("pareto", "verdict-domain", "compare returned %r" % (v,))
@@ -143,7 +145,7 @@ def triple_cases(draw, max_m=6):
         ms = [draw(st.sampled_from(MARKERS)) for _ in range(3)]
     order = draw(st.one_of(st.sampled_from([[0, 1, 2], [2, 1, 0]]), st.permutations([0, 1, 2])))
     vs = [p + [ms[0]], q + [ms[1]], r + [ms[2]]]
-    return {"t": [vs[i] for i in order]}
+    return {"t": [vs[i] for i in order], "np": draw(st.booleans())}
 
 
 def check_transitive(case):
@@ -151,9 +153,9 @@ def check_transitive(case):
     a, b, c = case["t"]
     with guard("transitive"):
         cmp_ = ParetoDominance()
-        ab = cmp_.compare(list(a), list(b))
-        bc = cmp_.compare(list(b), list(c))
-        ac = cmp_.compare(list(a), list(c))
+        ab = cmp_.compare(npcosts(a, case.get("np")), npcosts(b, case.get("np")))
+        bc = cmp_.compare(npcosts(b, case.get("np")), npcosts(c, case.get("np")))
+        ac = cmp_.compare(npcosts(a, case.get("np")), npcosts(c, case.get("np")))
     prem = False
     for x in (1, 2):
         if ab == x and bc == x:
@@ -201,8 +203,8 @@ def check_eps(case):
         return {"nt": False, "classes": ["skipped-not-separated"]}
     with guard("epsilon"):
         e = EpsilonDominance(eps if not isinstance(eps, list) else list(eps))
-        v = e.compare(list(p), list(q))
-        w = e.compare(list(q), list(p))
+        v = e.compare(npcosts(p, case.get("np")), npcosts(q, case.get("np")))
+        w = e.compare(npcosts(q, case.get("np")), npcosts(p, case.get("np")))
     exp = O.verdict(p, q)
     identical = all(x == y for x, y in zip(p[:-1], q[:-1]))
     if v not in (0, 1, 2) or w not in (0, 1, 2):
